@@ -323,10 +323,6 @@ STEPS.update({
     # the working directory under a remapped common parent
     'remap_on': lambda c: setattr(c, 'remap', True), 'remap_off': lambda c: setattr(c, 'remap', False),
 })
-FIXED_HISTORIES.append(['sm_src', 'ss_src', 'sm_inc', 'ss_inc', 'sm_ext', 'ss_ext', 'sm_ext', 'sm_static', 'ss_static', 'sm_static', 'same'])
-FIXED_HISTORIES.append(['swap_src', 'swap_src', 'swap_src', 'remap_on', 'cwd_swap', 'cwd_swap', 'remap_off', 'cwd_swap', 'remap_on', 'same'])
-RANDOM_POOL.extend(['ss_src', 'sm_src', 'ss_inc', 'sm_inc', 'ss_ext', 'sm_ext', 'ss_static', 'sm_static', 'swap_src', 'remap_on', 'remap_off'])
-
 
 def bump_foo(c, i):
     c.edits += 1
@@ -345,6 +341,9 @@ RANDOM_POOL = ['same', 'edit_lib', 'edit_mod', 'edit_nested', 'edit_spaced', 'ed
                'vv_unset', 'cargo_ver', 'unrelated_env', 'cfg_swap', 'cfg_toggle', 'l_swap', 'extern_v2', 'extern_v1',
                'args_split', 'args_merged', 'args_plain', 'warn', 'revert_all', 'cwd_swap', 'reg_set', 'reg_change', 'reg_empty',
                'reg_unset', 'lint_da', 'lint_ad', 'lint_wa', 'lint_aw', 'static_first_edit', 'static_second_edit', 'static_swap']
+FIXED_HISTORIES.append(['sm_src', 'ss_src', 'sm_inc', 'ss_inc', 'sm_ext', 'ss_ext', 'sm_ext', 'sm_static', 'ss_static', 'sm_static', 'same'])
+FIXED_HISTORIES.append(['swap_src', 'swap_src', 'swap_src', 'remap_on', 'cwd_swap', 'cwd_swap', 'remap_off', 'cwd_swap', 'remap_on', 'same'])
+RANDOM_POOL.extend(['ss_src', 'sm_src', 'ss_inc', 'sm_inc', 'ss_ext', 'sm_ext', 'ss_static', 'sm_static', 'swap_src', 'remap_on', 'remap_off'])
 
 
 def read_dir(d):
@@ -357,10 +356,34 @@ def read_dir(d):
     return out
 
 
-def write_files(w, files, previous):
+class Clock:
+    """modification times are assigned, not taken from the wall clock: every write gets a new time in the past (two
+    hours ago, 2 s apart) unless the old one is to be put back (same path, same mtime: what cp -p / rsync -t / a
+    restored build cache do)"""
+
+    def __init__(self):
+        self.t = int(time.time()) - 7200
+
+    def put(self, path, data, keep):
+        old = None
+        if keep and os.path.exists(path):
+            old = os.stat(path).st_mtime_ns
+        os.makedirs(os.path.dirname(path), exist_ok=True)
+        with open(path, 'wb') as f:
+            f.write(data if isinstance(data, bytes) else data.encode())
+        if old is None:
+            self.t += 2
+            old = self.t * 1000000000 + 123456789
+        os.utime(path, ns=(old, old))
+
+
+def write_files(w, files, previous, clock=None, keep=()):
     for rel, txt in files.items():
         if previous.get(rel) != txt:
             p = os.path.join(w, rel)
+            if clock is not None:
+                clock.put(p, txt, rel in keep)
+                continue
             os.makedirs(os.path.dirname(p), exist_ok=True)
             open(p, 'w').write(txt)
     for rel in previous:
@@ -407,6 +430,7 @@ def run_history(sccache, rustc, rng, idx, steps, scratch):
         written_in = {'w': {}, 'w2': {}}
         foo_in = {'w': {}, 'w2': {}}
         archive_cache = {}
+        clock = Clock()
         dep_in = {'w': None, 'w2': None}
         w0 = w
         seen_full = set()
@@ -417,10 +441,10 @@ def run_history(sccache, rustc, rng, idx, steps, scratch):
             if label != 'init':
                 STEPS[label](crate)
             w = os.path.join(root, crate.cwd)
-            write_files(w, crate.files, written_in[crate.cwd])
+            write_files(w, crate.files, written_in[crate.cwd], clock, crate.keep)
             written_in[crate.cwd] = dict(crate.files)
             if dep_in[crate.cwd] != crate.dep_version:
-                open(os.path.join(w, 'deps', 'libdep.rlib'), 'wb').write(dep_bytes[crate.dep_version])
+                clock.put(os.path.join(w, 'deps', 'libdep.rlib'), dep_bytes[crate.dep_version], 'deps/libdep.rlib' in crate.keep)
                 dep_in[crate.cwd] = crate.dep_version
             archives = {}
             if crate.have_cc:
@@ -428,10 +452,10 @@ def run_history(sccache, rustc, rng, idx, steps, scratch):
                     data = make_archive(os.path.join(root, 'obj'), ver, archive_cache)
                     archives[d + '/libfoo.a'] = data
                     if foo_in[crate.cwd].get(d) != ver:
-                        os.makedirs(os.path.join(w, d), exist_ok=True)
-                        open(os.path.join(w, d, 'libfoo.a'), 'wb').write(data)
+                        clock.put(os.path.join(w, d, 'libfoo.a'), data, (d + '/libfoo.a') in crate.keep)
                         foo_in[crate.cwd][d] = ver
-            argv = crate.argv()
+            crate.keep = set()
+            argv = [a.replace('@PARENT@', root) for a in crate.argv()]
             env = crate.environment(srv.base_env)
             # what sccache asks rustc for the key: the dep-info of this state (used for the model's prediction)
             dep_tmp = os.path.join(root, 'probe.d')
